@@ -23,12 +23,12 @@ P['C01']={
   A+"isValidIDPNewTokensResponse":[], A+"isValidIDPRefreshTokenResponse":[],
   A+"getSessionIDFromCookie":[], A+"matchesLogoutPath":[], A+"matchesCallbackPath":[],
   "server.ExtAuthZFilter.Check":["err_no_verdict","untriggered","unmatched","judged"],
-  A+"mockHandler.Process":[], A+"NewMockHandler":[],
+  A+"mockHandler.Process":[], A+"NewMockHandler":[], A+"NewOIDCHandler":[], A+"loadWellKnownConfig":[],
   "oidc.redisStore.SetTokenResponse":["faults_reported"], "oidc.redisStore.GetTokenResponse":["faults_reported"],
   "oidc.redisStore.SetAuthorizationState":["faults_reported"], "oidc.redisStore.GetAuthorizationState":["faults_reported"],
   "oidc.redisStore.ClearAuthorizationState":["faults_reported"], "oidc.redisStore.RemoveSession":["faults_reported"],
  },
- "required":[H+"Process:post:ok_justified", "oidc.redisStore.GetTokenResponse:post:faults_reported", "server.ExtAuthZFilter.Check:post:judged", H+"retrieveTokens:post:denied", H+"redirectToIDP:post:denied", A+"setDenyResponse:cover"],
+ "required":[H+"Process:post:ok_justified", "oidc.redisStore.GetTokenResponse:post:faults_reported", A+"NewOIDCHandler:post:handler", "server.ExtAuthZFilter.Check:post:judged", H+"retrieveTokens:post:denied", H+"redirectToIDP:post:denied", A+"setDenyResponse:cover"],
  "note":"OK verdict justified by the abstract session state (ghost View), for arbitrary store content and with every store / IdP / key-source call allowed to fail before or after taking effect; interleavings below call granularity are not decided"}
 P['C02']={
  "posts":{
